@@ -14,11 +14,15 @@ VARIABLE c
 
 \* xt kinds: the hash A in hex / base 32 / upper-case hex, the hash B in hex, a btih of the wrong length,
 \* another urn, garbage after urn:btih:
-XtKinds == {"hexA", "b32A", "HEXA", "hexB", "short", "sha1urn", "garbage"}
-HashOf(x) == CASE x \in {"hexA", "b32A", "HEXA"} -> "A" [] x = "hexB" -> "B" [] OTHER -> "none"
+\* ... and strings of a hash's length that are not a hash: 32 base-32 characters of which the last are padding (16-19
+\* bytes), 42 hex digits, 24 base-32 characters; "amb32": 32 characters that are hex digits as well as base-32
+\* characters - 16 bytes in hex, which is no hash, and the 20 bytes of hash C in base 32
+XtKinds == {"hexA", "b32A", "HEXA", "hexB", "short", "sha1urn", "garbage", "b32pad1", "b32pad4", "hexlong", "b32short", "amb32"}
+HashOf(x) == CASE x \in {"hexA", "b32A", "HEXA"} -> "A" [] x = "hexB" -> "B" [] x = "amb32" -> "C" [] OTHER -> "none"
 
-Forms == {"magnet", "bare-hex", "bare-b32", "http-url", "junk", "empty", "magnet-noquery"}
-Xts == {<<>>} \cup {<<x>> : x \in XtKinds} \cup {<<x, y>> : x \in {"short", "sha1urn", "garbage", "hexA"}, y \in {"hexA", "hexB", "b32A"}}
+Forms == {"magnet", "bare-hex", "bare-b32", "http-url", "junk", "empty", "magnet-noquery", "bare-b32pad", "bare-hexlong", "bare-amb32"}
+Xts == {<<>>} \cup {<<x>> : x \in XtKinds}
+       \cup {<<x, y>> : x \in {"short", "sha1urn", "garbage", "hexA", "b32pad1", "b32pad4", "hexlong", "b32short"}, y \in {"hexA", "hexB", "b32A"}}
 
 Cases == {[form |-> f, xt |-> <<>>, tr |-> 0, badtr |-> 0, ws |-> 0, dn |-> FALSE] : f \in Forms \ {"magnet"}}
          \cup {[form |-> "magnet", xt |-> x, tr |-> t, badtr |-> b, ws |-> w, dn |-> d] :
@@ -29,7 +33,8 @@ FirstHash(xs) == LET good == {k \in 1..Len(xs) : HashOf(xs[k]) # "none"} IN
 
 Expected(m) ==
   CASE m.form \in {"bare-hex", "bare-b32"} -> [verdict |-> "torrent", hash |-> "A", ntr |-> 0, nws |-> 0, dn |-> FALSE]
-    [] m.form \in {"http-url", "junk", "empty"} -> [verdict |-> "notmagnet", hash |-> "none", ntr |-> 0, nws |-> 0, dn |-> FALSE]
+    [] m.form = "bare-amb32" -> [verdict |-> "torrent", hash |-> "C", ntr |-> 0, nws |-> 0, dn |-> FALSE]
+    [] m.form \in {"http-url", "junk", "empty", "bare-b32pad", "bare-hexlong"} -> [verdict |-> "notmagnet", hash |-> "none", ntr |-> 0, nws |-> 0, dn |-> FALSE]
     [] m.form = "magnet-noquery" -> [verdict |-> "error", hash |-> "none", ntr |-> 0, nws |-> 0, dn |-> FALSE]
     [] OTHER -> IF FirstHash(m.xt) = "none" THEN [verdict |-> "error", hash |-> "none", ntr |-> 0, nws |-> 0, dn |-> FALSE]
                 ELSE [verdict |-> "torrent", hash |-> FirstHash(m.xt), ntr |-> m.tr, nws |-> 2 * m.ws, dn |-> m.dn]
@@ -38,6 +43,6 @@ Init == c \in Cases
 Next == UNCHANGED c
 Spec == Init /\ [][Next]_c
 \* the specification itself: a torrent always has a hash, and it is one that the link carries
-Good == LET e == Expected(c) IN e.verdict = "torrent" => e.hash \in {"A", "B"}
+Good == LET e == Expected(c) IN e.verdict = "torrent" => e.hash \in {"A", "B", "C"}
 Emit == PrintT("CASE " \o ToJson([c |-> c, exp |-> Expected(c)]))
 =============================================================================
